@@ -2,6 +2,7 @@
    Statements only; every proof is [exact lemma]. *)
 From NG Require Import Common.Tactics Codec.Bigint Codec.Wire Codec.WireProofs Codec.TxCodec Codec.TxCodecProofs Codec.ItemCodec Codec.ItemCodecProofs.
 From NG Require Import Codec.MptCodec Codec.MptCodecProofs Codec.MptCodecTrie Codec.StateCodec Codec.StateCodecProofs Codec.ExecCodec Codec.ExecCodecProofs Codec.NetCodec Codec.NetCodecProofs Codec.ZeroExamples.
+From NG Require Import Auth.Permission Auth.PermStore Codec.ManifestItem Codec.ManifestItemProofs.
 Open Scope Z_scope.
 
 (* One theorem per type: the conjunction of its family (decode_encode, decode_wf, decode_canonical, decode_total,
@@ -346,6 +347,21 @@ Theorem C17_frame_codec :
   (forall decompress sr, dec_consumes (read_frame decompress sr)).
 Proof. exact (conj frame_decode_encode (conj frame_decode_encode_compressed (conj frame_canonical (conj frame_alloc_bounded frame_consumes)))). Qed.
 Print Assumptions C17_frame_codec.
+
+(* ---------- the STORED (stack-item) form of a manifest: Manifest.ToStackItem / FromStackItem ---------- *)
+(* parts: manifest_item_roundtrip (FromStackItem (ToStackItem m) = m), manifest_item_injective (the stored form determines
+   the manifest), manifest_stored_form_distinguishes (wildcard trusts / explicit empty trusts, wildcard methods /
+   explicit empty method list, safe / unsafe, another group signature are stored differently); the permission part is
+   the C16 model coq/Auth/PermStore.v *)
+Theorem C17_manifest_item_codec :
+  (forall m, manifest_wf m -> manifest_from_item (manifest_to_item m) = Some m) /\
+  (forall m m', manifest_wf m -> manifest_wf m' -> manifest_to_item m = manifest_to_item m' -> m = m') /\
+  (trusts_to_item None <> trusts_to_item (Some []) /\
+   (forall d, of_sitem (perm_to_item (mk_perm d MWild)) <> of_sitem (perm_to_item (mk_perm d (MList [])))) /\
+   (forall n ps r o, method_to_item (MMethod n ps r o true) <> method_to_item (MMethod n ps r o false)) /\
+   (forall k s s', s <> s' -> group_to_item (MGroup k s) <> group_to_item (MGroup k s'))).
+Proof. exact (conj manifest_item_roundtrip (conj manifest_item_injective manifest_stored_form_distinguishes)). Qed.
+Print Assumptions C17_manifest_item_codec.
 
 (* ---------- non-vacuity ---------- *)
 (* non-vacuity: concrete boundary values, a non-minimal form that is read but never written *)
